@@ -492,6 +492,12 @@ func DownloadFolderHandler(rwc io.ReadWriter, fullPath string, fileTransfer *Fil
 			return fmt.Errorf("error opening file: %w", err)
 		}
 
+		// A resumed file is sent from the offset the client asked for: the announced size already excludes
+		// the bytes before it.
+		if _, err := file.Seek(dataOffset, io.SeekStart); err != nil {
+			return fmt.Errorf("error seeking to resume offset: %w", err)
+		}
+
 		// wr := bufio.NewWriterSize(rwc, 1460)
 		if _, err = io.Copy(rwc, io.TeeReader(file, fileTransfer.bytesSentCounter)); err != nil {
 			return fmt.Errorf("error sending file: %w", err)
